@@ -742,6 +742,43 @@ func step(t []string, hb *histBufs) string {
 			return errClass(err)
 		}
 		return "ok " + w.show()
+	case "reuse-cbc-left", "reuse-gcm-left":
+		// SaltBySecret*Decrypt(ct, secret[, ad], true) and what the caller's ct buffer holds afterwards
+		var secret, ad, ct0 []byte
+		var ok1, ok2, ok3 = true, true, true
+		if t[0] == "reuse-cbc-left" {
+			if len(t) != 3 {
+				return "bad-op"
+			}
+			secret, ok1 = unhx(t[1])
+			ct0, ok3 = unhx(t[2])
+		} else {
+			if len(t) != 4 {
+				return "bad-op"
+			}
+			secret, ok1 = unhx(t[1])
+			ad, ok2 = unhx(t[2])
+			ct0, ok3 = unhx(t[3])
+		}
+		if !ok1 || !ok2 || !ok3 {
+			return "bad-op"
+		}
+		ct := append([]byte{}, ct0...)
+		ct = ct[:len(ct):len(ct)]
+		var p []byte
+		var err error
+		if t[0] == "reuse-cbc-left" {
+			p, err = cryptz.SaltBySecretCBCDecrypt(ct, secret, true)
+		} else {
+			p, err = cryptz.SaltBySecretGCMDecrypt(ct, secret, ad, true)
+		}
+		o := ""
+		if err != nil {
+			o = errClass(err)
+		} else {
+			o = "ok " + hx(p)
+		}
+		return o + " ct=" + hx(ct)
 	case "ctr":
 		// ctr key iv n: NOT a call into /repo — the first n keystream bytes of crypto/cipher's CTR
 		// mode, so that the Lean model's counter (all 16 bytes carry) is compared with the standard
